@@ -141,7 +141,9 @@ fn main() -> Result<()> {
             dest.to_path_buf()
         };
 
-        if source == &target_base {
+        if source == &target_base
+            || (target_base.exists() && libfs::is_same_file(source, &target_base)?)
+        {
             return Err(XcpError::InvalidSource("Source is same as destination").into());
         }
 
